@@ -672,7 +672,9 @@ fn spawn_doc(trivia: &Trivia, func: &Term) -> Doc {
                 Some(parameter_type) => format!("@({}) ", render_type(parameter_type)),
             };
             match &function.body {
-                None => pretty::text(head),
+                // A body-less function has no `@`-sugar form; `@#type` (the general `@<primary>` arm)
+                // is the only spelling the parser reads back as this term.
+                None => pretty::concat(vec![pretty::text("@"), function_doc(trivia, function)]),
                 Some(body) => pretty::concat(vec![pretty::text(head), block_doc(trivia, body)]),
             }
         }
